@@ -1,6 +1,7 @@
 -- Root of the library: every property file (and through them the model, lemmas and generated tables).
 import BertE.Props.C01
 import BertE.Props.C03
+import BertE.Props.C04
 import BertE.Props.C05
 import BertE.Props.C06
 import BertE.Props.C07
